@@ -79,7 +79,7 @@ inline void sweep(const std::string &kind, const std::string &part, const Oct &a
 		// signatures and ephemeral keys (0x04 uncompressed, 0x40 native, 0x02/0x03 compressed)
 		std::vector<unsigned> mk2(mk);
 		{ const Region *rg = L.region_at(p);
-		  if (rg && rg->off == p && rsuffix(reg) == "mpi_val") for (unsigned v : {0x00u, 0x02u, 0x03u, 0x04u, 0x40u, 0x41u, 0xFFu}) { unsigned m = art[p] ^ v; if (m && std::find(mk2.begin(), mk2.end(), m) == mk2.end()) mk2.push_back(m); } }
+		  if (rg && rg->off == p && (rsuffix(reg) == "mpi_val" || rsuffix(reg) == "point_format")) for (unsigned v : {0x00u, 0x02u, 0x03u, 0x04u, 0x40u, 0x41u, 0xFFu}) { unsigned m = art[p] ^ v; if (m && std::find(mk2.begin(), mk2.end(), m) == mk2.end()) mk2.push_back(m); } }
 		for (unsigned m : mk2) {
 			t[p] = art[p] ^ m; g_cur_mask = m;
 			Acc a = acc(t);
@@ -155,6 +155,37 @@ inline TMCG_OpenPGP_Pubkey *parse_pub(const Oct &blk) {
 inline bool sig_judged(const std::string &reg) { std::string s = rsuffix(reg); return s == "hashed" || s == "mpi_val"; }
 // body regions of a key packet
 inline bool keybody_region(const std::string &reg) { std::string s = rsuffix(reg); return s == "ver" || s == "time" || s == "algo" || s == "v5len" || s == "oid" || s == "mpi_bits" || s == "mpi_val" || s == "kdf"; }
+
+// structural tamper: put subpackets into the (empty) unhashed area of a signature packet made by the library
+inline Oct inject_unhashed(const Oct &sigpkt, const Oct &subpkts) {
+	Layout L = walk(sigpkt); const Region *h = L.find("sig.hashed"), *u = L.find("sig.unhashed"), *hd = L.find("sig.hdr");
+	if (!L.ok || !h || !u || !hd) return Oct();
+	Oct body = sub(sigpkt, h->off, h->len);
+	body.push_back((subpkts.size() >> 8) & 0xFF); body.push_back(subpkts.size() & 0xFF); app(body, subpkts);
+	app(body, sub(sigpkt, u->off + u->len, sigpkt.size()));
+	Oct out; PGP::PacketTagEncode(2, out); PGP::PacketLengthEncode(body.size(), out); app(out, body); return out;
+}
+inline void unhashed_injection(const std::string &kind, const Oct &sigpkt, gcry_sexp_t key, const SigTarget &t, time_t keyct, time_t sigtime, const std::string &sem0, const std::string &cj, Stats &st) {
+	struct Inj { const char *name; std::vector<unsigned char> sp; };
+	unsigned long ft = (unsigned long)sigtime + 40000000UL;
+	std::vector<Inj> inj = {
+		{"creation-time", {5, 2, (unsigned char)(ft >> 24), (unsigned char)(ft >> 16), (unsigned char)(ft >> 8), (unsigned char)ft}},
+		{"expiration-time", {5, 3, 0x7F, 0xFF, 0xFF, 0x00}},
+		{"key-expiration", {5, 9, 0x00, 0x00, 0x00, 0x01}},
+		{"issuer", {9, 16, 1, 2, 3, 4, 5, 6, 7, 8}},
+		{"revocable-exportable", {2, 7, 0, 2, 4, 0}},
+		{"all", {5, 2, (unsigned char)(ft >> 24), (unsigned char)(ft >> 16), (unsigned char)(ft >> 8), (unsigned char)ft, 5, 3, 0, 0, 0, 1, 2, 27, 0xFF}}};
+	for (auto &i : inj) {
+		Oct sp(i.sp.begin(), i.sp.end()), tp = inject_unhashed(sigpkt, sp);
+		if (tp.empty()) continue;
+		SigRes q = lib_check(tp, key, t, keyct); st.evals++; count("struct/" + kind + "/unhashed-" + i.name);
+		if (q.parsed && q.crypto && q.sem != sem0)
+			viol("C20/tamper-accepted-different-content/" + kind + "/sig.unhashed-injection", std::string("subpacket (") + i.name + ") injected into the unhashed area changed what the verified signature says",
+				J().kv("injected", i.name).kv("tampered_sig_hex", hexs(tp, 4096)).kv("accepted_content", shorten(q.sem, 600)).kv("original_content", shorten(sem0, 600)).raw("ctx", cj).str());
+		else if (q.parsed && q.crypto) count("equiv_accepted/" + kind + "/sig.unhashed-injection");
+		st.distinct.insert(kind + "/struct/unhashed-" + i.name);
+	}
+}
 
 // validity catalogue on one signature packet (times through the interposed clock and the
 // key-creation-time parameter).  sigtime/sigexp are what the harness put into the packet.
